@@ -368,6 +368,7 @@ Proof.
   - apply VInv_on_node; [|exact HV]. intros m _. apply Q_S, Q_upd_budget.
   - apply VInv_on_node; [|exact HV]. intros m _. apply Q_S. qtv.
   - apply VInv_on_node; [|exact HV]. intros m _. apply Q_S. qtv.
+  - apply VInv_on_node; [|exact HV]. intros m _. apply Q_S. qtv.
   - destruct (get_node w n) as [m|] eqn:G; [|exact HV]. destruct (is_up m); [|exact HV].
     apply VInv_step_task; [eapply get_node_id; exact G|exact HV].
   - apply VInv_on_node; [|exact HV]. intros m C. destruct (is_up m && cv_election (n_cv m)); [apply R_S, R_election, C|apply S_refl].
